@@ -17,7 +17,7 @@ THEOREMS = [
     'Pfst.C05.mode_total', 'Pfst.C05.modes_match_spec', 'Pfst.C05.class_modes_match_spec', 'Pfst.C05.wrappers_sound',
     'Pfst.C05.wrappers_observed', 'Pfst.C05.b2c_c2b_boundary', 'Pfst.C05.fixSeq_trailing', 'Pfst.C05.fixSeq_no_trailing',
     'Pfst.C05.trailing_sep_spec', 'Pfst.C05.trailing_comma_spec', 'Pfst.C05.trailing_semicolon_spec',
-    'Pfst.C05.trailing_sep_same_language', 'Pfst.C05.trailing_sep_blanks', 'Pfst.C05.verify_comments_irrelevant', 'Pfst.C05.arg_single', 'Pfst.C05.importfrom_no_own_parens',
+    'Pfst.C05.trailing_sep_same_language', 'Pfst.C05.trailing_sep_blanks', 'Pfst.C05.verify_comments_irrelevant', 'Pfst.C05.arg_single', 'Pfst.C05.importfrom_no_own_parens', 'Pfst.C05.match_cases_undo_indent',
 ]
 RULE = ('(1) whole programs (snippets, generated, layout-mutated, commented, multi-byte, stdlib chunks) through exec/stmts/strict/'
         'all/eval/single and FST(src): source unchanged, tree == ast.parse with positions; (2) for every extended mode, fragments '
@@ -152,7 +152,7 @@ def _loc4(n):
 
 def _compare(fr, r, T, dl, dc1):
     """None if the pfst result `r` for variant text T equals the expected sub-tree(s); else (class, detail)"""
-    reb = lambda n: F.rebase(n, fr.l0, fr.c0, fr.dedent, dl, dc1)
+    reb = lambda n: F.rebase(n, fr.l0, fr.c0, fr.dedent, dl, dc1, fr.nodedent)
     if fr.opcls is not None:
         return None if type(r) is fr.opcls else ('tree', f'got {type(r).__name__}, expected {fr.opcls.__name__}')
     if fr.container is None:
@@ -188,7 +188,7 @@ def _compare(fr, r, T, dl, dc1):
 
 def _canon_expected(fr, T, dl, dc1):
     """JSON-able expected result (stored in the witness so that a replay needs no program)"""
-    reb = lambda n: F.dump(F.rebase(n, fr.l0, fr.c0, fr.dedent, dl, dc1)) if isinstance(n, ast.AST) else n
+    reb = lambda n: F.dump(F.rebase(n, fr.l0, fr.c0, fr.dedent, dl, dc1, fr.nodedent)) if isinstance(n, ast.AST) else n
     if fr.opcls is not None:
         return {'op': fr.opcls.__name__}
     if fr.container is None:
@@ -303,13 +303,13 @@ def run_fragment(fr, variants=True):
                 ra = px.parse(T, 'all')
                 if must and fr.mode == 'expr_all' and isinstance(ra, ast.expr):
                     # whatever expression `all` makes of the text must be the expression CPython sees in it
-                    d1, d2 = F.dump(ra), F.dump(F.rebase(fr.nodes[0], fr.l0, fr.c0, fr.dedent, dl, dc1))
+                    d1, d2 = F.dump(ra), F.dump(F.rebase(fr.nodes[0], fr.l0, fr.c0, fr.dedent, dl, dc1, fr.nodedent))
                     res['all'] = 'same'
                     if d1 != d2 and 'fail' not in res:
                         res['fail_all'] = ('tree' if F.dump(ra, False) != F.dump(fr.nodes[0], False) else 'positions', _fd(d1, d2))
                         res['expected'] = _canon_expected(fr, T, dl, dc1)
                 elif type(ra) is type(fr.nodes[0]) and F.dump(ra, False) == F.dump(fr.nodes[0], False):
-                    d1, d2 = F.dump(ra), F.dump(F.rebase(fr.nodes[0], fr.l0, fr.c0, fr.dedent, dl, dc1))
+                    d1, d2 = F.dump(ra), F.dump(F.rebase(fr.nodes[0], fr.l0, fr.c0, fr.dedent, dl, dc1, fr.nodedent))
                     res['all'] = 'same'
                     if d1 != d2 and 'fail' not in res:
                         res['fail_all'] = ('positions', _fd(d1, d2))
@@ -1134,6 +1134,29 @@ def correspondence(ctx):
             impl.append(r)
     ctx.compare("parse_ImportFrom_name/_names accept vs Pfst.ParseWrap.importFromNameOk/endsWithStmt on CPython's positions", cases, impl,
                 keyf=lambda c: (c['src'], c['single']), nontrivial=lambda c, o: '(' in c['src'] or '\n' in c['src'])
+    # (k) parse__match_cases: Lean undoIndent applied to CPython's positions of the cases indented under a genuine match statement
+    #     (multi-line strings kept verbatim) == the positions pfst returns
+    cases, impl = [], []
+    for T in F.SINGLE_ATOMS['match_case'] + F.SINGLE_ATOMS['_match_cases']:
+        for vname, V, dl, dc1 in F.variants(T, True):
+            if not V.strip() or F.redos_risk(V):
+                continue
+            g = F.g_cases(V)
+            sl = F.string_lines(V)
+            if not g or sl is None:
+                continue
+            try:
+                r = px.parse(V, '_match_cases')
+            except Exception:
+                continue
+            if len(r.cases) != len(g):
+                continue
+            ind = [i + 1 for i in range(V.count('\n') + 1) if i + 1 not in sl]
+            for gc, rc in zip(g, r.cases):
+                cases.append({'f': 'C05.undo_indent', 'tree': _ser(gc), 'k': 1, 'ind': ind, 'src': V})
+                impl.append(_flat(rc, []))
+    ctx.compare("pfst match_case positions vs Pfst.ParseWrap.undoIndent of CPython's positions in the genuine match statement", cases, impl,
+                keyf=lambda c: (c['src'], str(c['tree'])[:300]), nontrivial=lambda c, o: '"""' in c['src'] or "'''" in c['src'])
     # (f) rebasing: Lean rebaseAt on CPython's positions of the full program == positions pfst returns for the fragment
     cases, impl = [], []
     for src in progs[:40 if q else 300] + EXTRA:
